@@ -338,6 +338,18 @@ def run(ctx: Ctx) -> None:
 
     _base_generators(ctx)
     _as241(ctx)
+    # the catalogue entry of a variable is the one of ITS declared type: the table built by Database.generate_draws (rule of C10.R1)
+    ctx.rule('C11.R4', 'served as declared: Database.generate_draws fills column i with the generator registered for the declared type of the i-th name (obligation of C10.R1 on generate_draws)')
+    from . import c10
+
+    sub = Ctx(prog, ctx.prop, ctx.tier)
+    c10.run(sub)
+    got = 0
+    for o in sub.obligations:
+        if o.construct == 'Database.generate_draws:columns':
+            got += 1
+            ctx.adopt('C11.R4', o)
+    ctx.need(got == 1, 'the obligation of C10.R1 on Database.generate_draws')
 
 
 # --------------------------------------------------------------------------
@@ -413,7 +425,19 @@ def _base_generators(ctx: Ctx) -> None:
                     half = unparse(cexpr).replace(' ', '') in ('int(number_of_draws/2.0)', 'int(number_of_draws/2)', 'number_of_draws//2')
                 half = half and unparse(src[0].value.args[0]) == 'sample_size'
             ok = mirror and half
-    ctx.add('C11.R2', 'draws.get_antithetic', ok, f, 'returns (d, 1-d) along axis 1 with d = uniform_draws(sample_size, int(n/2))' if ok else f'antithetic construction not recognised: {det}', det)
+    stacked = None
+    if not ok:
+        for cc in [x for x in walk_no_nested(f.node) if isinstance(x, ast.Call) and dotted(x.func) in ('np.concatenate', 'numpy.concatenate') and x.args and isinstance(x.args[0], ast.Tuple) and len(x.args[0].elts) == 2]:
+            a_, b_ = cc.args[0].elts
+            try:
+                ts_ = ToSympy()
+                mir = equal(ts_(b_), 1 - ts_.sym(unparse(a_)))
+            except AnalysisError:
+                mir = False
+            ax_ = next((k.value for k in cc.keywords if k.arg == 'axis'), cc.args[1] if len(cc.args) > 1 else None)
+            if mir and (ax_ is None or unparse(ax_) != '1'):
+                stacked = f'{unparse(cc)[:80]}: the mirror images are concatenated along axis {unparse(ax_) if ax_ is not None else 0} (below the generated block), not beside it: observation i no longer receives its draws followed by their mirror images'
+    ctx.add('C11.R2', 'draws.get_antithetic', ok if (ok or stacked) else None, f, 'returns (d, 1-d) along axis 1 with d = uniform_draws(sample_size, int(n/2))' if ok else (stacked or f'antithetic construction not recognised: {det}'), det, positive=bool(stacked))
     # normal antithetic
     f = prog.func(DR, 'get_normal_wichura_draws')
     ifs = [n for n in walk_no_nested(f.node) if isinstance(n, ast.If) and unparse(n.test) == 'antithetic']
